@@ -106,6 +106,8 @@ def run(tier, seed):
                     v['confirmed'] = True
             if not chk.violations:
                 chk.violation('BOUNDED:c08/the parser disagrees with the reference grammar', {'witness': nat['bad'][:4]}, True)
+    if chk.bounded and nat.get('corpus'):
+        chk.bounded['rule'] += '.  Plus %d runs over the hand-written corpus specs/luacorpus.py (shapes random generation reaches only by luck)' % nat['corpus']
     chk.native_witness = nat.get('bad')
     chk.trust('pyvc VC generator + z3 for the cursor primitive and the fence region; reference grammar specs/luagrammar.py (bounded part)')
     chk.assume('tokens are abstract values; `tok.matches(pattern)` and the three trivia classes are uninterpreted predicates of the token')
